@@ -276,23 +276,72 @@ def rule_registry(ctx):
                     ctx.violated("C16.REGISTRY", fi.short, f"writes the callback registry ({hit}) outside onevent/rmonevent", fi=fi, node=node)
     ctx.floor("C16.REGISTRY", "registry writes", n, 2)
     te = p.cls("indi.client.client.BaseClient").find_method("trigger_event")
-    loops = [x for x in ast.walk(te.node) if isinstance(x, ast.For)]
-    live = len(loops) == 1 and ast.unparse(loops[0].iter) == "self.callbacks"
-    if live:
-        # the dispatch loop walks the live list: removal must mutate that list in place; rebinding the attribute
-        # leaves a dispatch in progress iterating the old list, i.e. invoking callbacks after their removal
-        for fi in p.functions:
-            if fi.cls is None or fi.cls.name != "BaseClient" or fi.name == "__init__":
+    if not bad:
+        ctx.holds("C16.REGISTRY", te.short, f"{n} writes of the callback registry, all in onevent/rmonevent/__init__", fi=te)
+
+
+def rule_during(ctx):
+    """Registration changes made by a callback while an event is being dispatched (the one-shot idiom: a callback that
+    removes itself; a callback that removes or adds another).  Four callbacks cb0..cb3 all match; while cb<k> runs it
+    removes cb<j> through the real rmonevent (every k, j), or registers a new one.  Required: a callback removed before
+    its turn is not invoked any more, every other registered callback is invoked exactly once - nobody is skipped
+    because the registry shrank under the dispatch loop - and the next event reaches exactly the remaining ones."""
+    p = ctx.p
+    bc = p.cls("indi.client.client.BaseClient")
+    te = bc.find_method("trigger_event")
+    rm = bc.find_method("rmonevent")
+    N = 4
+    bad = False
+    n = 0
+    for k in range(N):
+        for j in range(N):
+            n += 1
+
+            def effect(it, callee, args, kwargs, ev, k=k, j=j):
+                if isinstance(callee, Obj) and callee.label == f"<fn:cb{k}>" and not it.done:
+                    it.done = True
+                    nev = len(it.events)
+                    it.run_function(Fn(rm, it.client), [], {"uuid": it.cfgs[j].attrs["uuid"]})
+                    del it.events[nev:]
+                    return Const(None)
+                return None
+
+            def run(it: Interp):
+                cbs = [make_callback(p, label=f"cb{i}") for i in range(N)]
+                it.done = False
+                c_ = make_client(p, cbs, it=it)
+                it.client, it.cfgs = c_, cbs
+                ev = Obj(p.cls("indi.client.events.ValueUpdate"), {"device": Const(None), "vector": Const(None), "element": Const(None)}, label="event")
+                it.run_function(Fn(te, c_), [ev], {})
+                it.first = [l for l, e, _ in delivered_events(type("P", (), {"events": it.events})())]
+                del it.events[:]
+                it.run_function(Fn(te, c_), [ev], {})
+                it.second = [l for l, e, _ in delivered_events(type("P", (), {"events": it.events})())]
+                return Const(None)
+
+            paths = explore(p, run, client_opts(p, {"call_effect": effect}))
+            ctx.paths_enumerated += len(paths)
+            if len(paths) != 1 or paths[0].outcome != "return":
+                ctx.undecided("C16.DURING", te.short, f"dispatch with cb{k} removing cb{j} not decided by constant evaluation ({len(paths)} paths)", fi=te)
+                bad = True
                 continue
-            for node in walk_no_nested(fi.node):
-                if isinstance(node, (ast.Assign, ast.AnnAssign, ast.AugAssign)):
-                    tg = node.targets if isinstance(node, ast.Assign) else [node.target]
-                    for t in tg:
-                        if isinstance(t, ast.Attribute) and t.attr == "callbacks" and isinstance(t.value, ast.Name) and t.value.id == "self":
-                            bad = True
-                            ctx.violated("C16.REGISTRY", fi.short, "the callback registry is rebound (self.callbacks = ...) while trigger_event iterates the live list: a dispatch in progress keeps walking the old list and still invokes a callback that has just been removed", fi=fi, node=node, text="registry-rebound")
-    ok = len(loops) == 1 and ast.unparse(loops[0].iter) in ("self.callbacks", "list(self.callbacks)", "tuple(self.callbacks)", "self.callbacks[:]", "self.callbacks.copy()")
-    ctx.check(ok and not bad, "C16.REGISTRY", te.short, "single registry, read at dispatch time", "trigger_event does not iterate the live registry (a removed callback could still be invoked / a cached copy used)", fi=te, text="dispatch-source")
+            it_ = paths[0].interp
+            want1 = [f"cb{i}" for i in range(N) if not (i == j and j > k)]
+            want2 = [f"cb{i}" for i in range(N) if i != j]
+            if it_.first != want1 or it_.second != want2:
+                who = "itself" if j == k else f"cb{j}"
+                miss = [x for x in want1 if x not in it_.first]
+                extra = [x for x in it_.first if x not in want1]
+                why = (f"{miss} still registered and matching but not invoked (the registry shrank under the dispatch loop)" if miss else "") + (f" {extra} invoked after its removal" if extra else "")
+                ctx.violated("C16.DURING", te.short, f"four matching callbacks cb0..cb3; while cb{k} runs it removes {who}: this event reaches {it_.first}, the next one {it_.second}; expected {want1} and {want2}: {why.strip()}", fi=te, text="removal-during-dispatch:" + ("skipped" if miss else "late" if extra else "next"), witness=f"cb{k} calls rmonevent(uuid of cb{j}) during dispatch")
+                bad = True
+                if miss or extra:
+                    break
+        if bad:
+            break
+    ctx.counters["C16.DURING:(running, removed) pairs"] = n
+    if not bad:
+        ctx.holds("C16.DURING", te.short, f"{n} (running callback, removed callback) pairs: nobody skipped, nobody invoked after removal, the next event reaches exactly the remaining callbacks", fi=te)
 
 
 def _events_for(p, stream_factory):
@@ -456,6 +505,7 @@ RULES = [
     ("C16.RM", rule_rm, "removal by every combination of criteria; onevent appends and returns the uuid"),
     ("C16.CONTAIN", rule_contain, "per-callback containment inside the dispatch loop"),
     ("C16.REGISTRY", rule_registry, "single registry written only by onevent/rmonevent, read at dispatch time"),
+    ("C16.DURING", rule_during, "registration changes made by a callback during dispatch: nobody skipped, nobody invoked after removal"),
     ("C16.IFF", rule_iff, "update events are exactly the changes, (old,new) = (previous,current)"),
     ("C16.ATOMIC", rule_atomic, "an update that fails to decode/validate leaves the element's value untouched (no silent change)"),
     ("C16.CHAIN", rule_chain, "re-definition continues the event chain"),
